@@ -247,9 +247,44 @@ def ceiling_at_most_each_bound(ctx):
                   "Senpai writes can exceed that bound" % (var, ", ".join(miss)), witness_path(f, fl, r))
 
 
+def limit_writers_write_the_value_given(ctx):
+    """'Every limit it writes is either the cgroup's current usage or an adjusted value': the low-level writers of Senpai (writeMemhigh and
+    whatever other member hands a value to Fs::writeMemhighAt / writeMemhightmpAt) pass on the value they were given - the value
+    parameter is not re-assigned and is the argument of the file write.  The callers record what they asked for (start_limit, state.limit)
+    and compare the file against it on the next tick: a writer that quietly writes something else makes every tick a 'mismatch, reset'."""
+    P, cg = ctx.prog, ctx.cg
+    n = 0
+    for f in sorted(P.fns.values(), key=lambda x: (x.file, x.line, x.usr)):
+        if not f.pq.startswith("Oomd::Senpai::"):
+            continue
+        owner = f
+        while owner.kind == "lambda" and owner.d.get("parentfn") in P.fns:
+            owner = P.fns[owner.d["parentfn"]]
+        X = None
+        for i in f.calls("Fs::writeMemhighAt", "Fs::writeMemhightmpAt"):
+            a = f.nodes[i].get("args", [])
+            if len(a) < 2:
+                continue
+            n += 1
+            ctx.use(f)
+            X = X or Expander(P, f)
+            t = X(a[1])
+            m = re.fullmatch(r"param:(\w+)", t)
+            ok = m is not None and any(p_["name"] == m.group(1) for p_ in owner.params) and not local_writes(owner, m.group(1), must=False) and \
+                (owner is f or not local_writes(f, m.group(1), must=False))
+            ctx.check(ok or t == "std::numeric_limits::max()" or re.fullmatch(r"std::numeric_limits<[^>]*>::max\(\)", t) is not None,
+                      "limit-writers-write-the-value-given:%s@%d" % (short(owner), f.nodes[i].get("line", 0)), "provenance + no-write (parameter)", f.loc(i),
+                      "%s writes the value it was given" % short(owner),
+                      "%s hands '%s' to %s - not its value parameter as given (the parameter is re-assigned, or something else is written): the caller records the value it "
+                      "asked for, and the next tick finds memory.high different from the recorded limit and resets the cgroup" % (owner.pq, t[:60], f.nodes[i].get("cname")))
+    ctx.counters["limit_file_writes"] = n
+    ctx.floor("limit_file_writes", 2, "Fs::writeMemhighAt / writeMemhightmpAt call sites in Senpai")
+
+
 def run(ctx):
     floor_at_least_memory_min(ctx)
     ceiling_at_most_each_bound(ctx)
+    limit_writers_write_the_value_given(ctx)
     configured_paths_resolved_every_time(ctx)
     every_resolved_cgroup_is_returned(ctx, "C18")
     from .C15 import every_context_refreshed
